@@ -78,14 +78,17 @@ def worker(args):
             kind = rng.choice(["def", "def", "def", "async", "lambda"])
             with_ret = kind == "def" and rng.random() < .5
             annot_var = rng.random() < .4          # *args / **kwargs annotated too: every extra argument is checked
-            g = {"A": A, "D": D, "BODY": BODY}
+            # a default is never checked (the original would not check it either): in a quarter of the typeguard cases every
+            # default is a sentinel that does NOT satisfy the annotation (beartype inspects defaults at decoration time)
+            ck = rng.choice(["beartype", "typeguard"])
+            sentinel_defaults = ck == "typeguard" and rng.random() < .5
+            g = {"A": A, "D": "MISSING" if sentinel_defaults else D, "BODY": BODY}
             exec(gen_source(sig, names, kind, with_ret, annot_var), g)
             plain = g["fn"]
             if kind == "lambda":
                 plain.__annotations__ = {names[r]: A for r in ("po", "pk", "ko") if sig[r]}
                 if annot_var:
                     plain.__annotations__.update({names[r]: A for r in ("va", "vk") if sig[r]})
-            ck = rng.choice(["beartype", "typeguard"])
             tc = {"beartype": beartype, "typeguard": typechecked}[ck]
             try:
                 dec = jaxtyped(typechecker=tc)(plain)
